@@ -144,7 +144,7 @@ def run_rows(chk, rows, configs, matcher, rule_prefix, tier, header_configs=None
             iname = inst if hc_name == 'default' else '%s@%s' % (inst, hc_name)
             chk.expect(e.a[0].x == res_slot, R2, iname + ':dest',
                        'result is written to %s, the new top of the stack is %s' % (e.a[0].x, res_slot), site, e.loc())
-            mres = matcher(row, e.a[1], ops, dict(tu=tu, res_t=res_t, config=hc_name, tier=tier))
+            mres = matcher(row, e.a[1], ops, dict(tu=tu, res_t=res_t, config=hc_name, tier=tier, chk=chk))
             probs, decided = mres[0], mres[1]
             R3x = mres[2] if len(mres) > 2 else R3
             if not decided:
@@ -211,6 +211,10 @@ def _int_matcher_grid(row, rhs, ops, ctx, fallback):
         if bad is None:
             if fallback:
                 return [], False        # agrees on the grid; the arithmetic of the portable implementation is not decided for all operands
+            if ctx.get('chk') is not None:
+                # not decided - but the other rows still are: a definite violation elsewhere must not be hidden by this one
+                ctx['chk'].undecide('%s (agrees with the specification on the boundary grid, which does not decide all operands)' % ex)
+                return [], False
             raise AnalysisBroken('%s (agrees with the specification on the boundary grid, which does not decide all operands)' % ex)
         return ['%s (shape not recognised: %s)' % (bad, str(ex)[:160])], True
 
@@ -265,7 +269,8 @@ def run(chk):
     chk.require(len(rows) == 66, 'oracle lists %d integer numeric rows, expected 66' % len(rows))
     configs = [(0, 0), (1, 0)] if chk.tier == 'quick' else [(0, 0), (1, 0), (0, 1), (1, 1)]
     # the second configuration is the header as a compiler without the GNU builtins sees it (portable fallback implementations)
-    header_configs = [('default', []), ('fallback', ['-U__GNUC__', '-U__clang__', '-U__has_builtin', '-D__inline__=inline', '-D__builtin_va_list=void*'])]
+    header_configs = [('default', []), ('fallback', ['-U__GNUC__', '-U__clang__', '-U__has_builtin', '-D__inline__=inline', '-D__builtin_va_list=void*']),
+                      ('ndebug', ['-DNDEBUG', '-D__OPTIMIZE__=1'])]      # release builds of the generated code: same semantics, same traps
     ctx = run_rows(chk, rows, configs, int_matcher, 'R01', chk.tier, header_configs)
     htu = astdb.header_tu('w2c2/w2c2_base.h', ['-std=gnu89'])
     check_trap_plumbing(chk, htu)
